@@ -46,6 +46,24 @@
 (* property leaves open: a request that hits a failing statement is        *)
 (* answered with a plain error (no STH in the reply), also where a         *)
 (* fault-free run would have refused it with the held STH.                 *)
+(*                                                                         *)
+(* History of signatures.  The witness's judgment of an STH may not depend *)
+(* on what it was offered or verified before.  `offered[l]` is the history *)
+(* of genuine STHs of log l (signature bytes made by l's key over the very *)
+(* content they accompany) that were offered to the witness in an update   *)
+(* for l, whatever became of them (stored, refused as stale, refused for   *)
+(* the proof, lost to a storage fault, refused for the log_id field).  A   *)
+(* further kind of mis-signed candidate draws on that history: field       *)
+(* `over` names the STH (the DONOR) whose signature bytes the candidate    *)
+(* carries while its own size / root / timestamp are different ones: a     *)
+(* REPLAYED signature.  `signer` is whose key made the bytes, `over` what  *)
+(* they were made over (None: over this candidate's own content).  A       *)
+(* replayed signature is a bad signature: ParsesFor is false whether the   *)
+(* donor has been offered / verified / stored before ("seen") or not, for  *)
+(* the donor's own log or another one (ReplayedSigRefused,                 *)
+(* ReplayedLikeBadSig), and a genuine STH is judged by the stored STH      *)
+(* alone whatever was refused before (decision functions do not read       *)
+(* `offered`).                                                             *)
 (***************************************************************************)
 EXTENDS Naturals, Sequences, FiniteSets, TLC
 
@@ -55,7 +73,9 @@ CONSTANTS
   MaxSize,     \* tree sizes 0..MaxSize
   ForkAt,      \* the fork shares leaves 1..ForkAt with the honest tree
   Proofs,      \* proof labels, "correct" is one of them
-  Aliases      \* spellings of a log id other than the configured one ("canon")
+  Aliases,     \* spellings of a log id other than the configured one ("canon")
+  DonorIdfs,   \* log_id field states of the STHs whose signature bytes are replayed
+  ForgedIdfs   \* log_id field states of the STHs carrying a replayed signature
 
 None == [k |-> "none"]
 
@@ -72,9 +92,30 @@ IsPrefix(s, t) == Len(s) <= Len(t) /\ \A i \in 1..Len(s) : s[i] = t[i]
 Signers == Logs \cup {"bad"}          \* "bad": signature does not verify under any log key
 IdFields == {"absent", "right", "wrong"}
 Garbage == [k |-> "garbage"]
-STHs == [k : {"sth"}, fam : Fams, size : 0..MaxSize, ts : 1..2, signer : Signers, idf : IdFields]
 \* a fork head at or below the fork point is byte-identical to the honest one: keep one copy
-Cands == {c \in STHs : ~(c.fam = "F" /\ c.size <= ForkAt)} \cup {Garbage}
+Normal(x) == ~(x.fam = "F" /\ x.size <= ForkAt)
+\* what a log signature covers: tree size, root, timestamp
+ContentOf(x) == [fam |-> x.fam, size |-> x.size, ts |-> x.ts]
+\* plain candidates: the signature bytes were made (by `signer`) over the candidate's own content
+PlainSTHs == {c \in [k : {"sth"}, fam : Fams, size : 0..MaxSize, ts : 1..2, signer : Signers, idf : IdFields, over : {None}] :
+                Normal(c)}
+\* replayed signatures: the bytes are those of the donor `over`, a genuine STH of log `signer` with another content
+Donors == {d \in [k : {"sig"}, fam : Fams, size : 0..MaxSize, ts : 1..2, idf : DonorIdfs] : Normal(d)}
+ReplaySTHs == {c \in [k : {"sth"}, fam : Fams, size : 0..MaxSize, ts : 1..2, signer : Logs, idf : ForgedIdfs, over : Donors] :
+                 Normal(c) /\ ContentOf(c) # ContentOf(c.over)}
+PlainCands == PlainSTHs \cup {Garbage}
+Cands == PlainCands \cup ReplaySTHs
+IsReplay(c) == c \notin {Garbage, None} /\ c.over # None
+\* the genuine STH whose signature bytes a replay carries
+DonorCand(c) == [k |-> "sth", fam |-> c.over.fam, size |-> c.over.size, ts |-> c.over.ts, signer |-> c.signer,
+                 idf |-> c.over.idf, over |-> None]
+AsDonor(g) == [k |-> "sig", fam |-> g.fam, size |-> g.size, ts |-> g.ts, idf |-> g.idf]
+\* content x under the signature bytes of the genuine STH g
+Forge(x, g, idf) == [k |-> "sth", fam |-> x.fam, size |-> x.size, ts |-> x.ts, signer |-> g.signer, idf |-> idf, over |-> AsDonor(g)]
+\* the same content under a signature of a key that is no log's
+BadTwin(c) == [c EXCEPT !.signer = "bad", !.over = None]
+\* genuine STHs of log l: the signature verifies under l's key (whatever the log_id field says)
+Genuine(l) == {c \in PlainSTHs : c.signer = l}
 
 AllLogs == Logs \cup OtherLogs
 
@@ -107,15 +148,17 @@ VerifyCons(a, b, pf) == ProofSize(pf, a) = a.size /\ Root(b.fam, a.size) = Root(
 ParsesFor(c, l) == /\ c # Garbage
                    /\ c.idf # "wrong"
                    /\ c.signer = l
+                   /\ c.over = None          \* signature bytes made over another content never verify
 
 (* ---------- state ---------- *)
 VARIABLES
   held,   \* [Logs -> Cands \cup {None}] : the row of table sths for each known log
   cos,    \* [Logs -> Cands \cup {None}] : the latest STH the witness has cosigned for each log
+  offered,\* [Logs -> SUBSET PlainSTHs] : genuine STHs of the log offered to the witness so far (history variable)
   hist,   \* the behaviour so far (history variable, for replay)
   last    \* the last step (history variable)
 
-vars == <<held, cos, hist, last>>
+vars == <<held, cos, offered, hist, last>>
 
 Reply(code, kind, sth) == [code |-> code, kind |-> kind, sth |-> sth]
 NoBody == Reply("x", "none", None)
@@ -144,13 +187,28 @@ UpdateResult(l, sp, c, pf, f) ==
        IF r.store /\ StoreFails(f) THEN Failed             \* INSERT or COMMIT fails: nothing stored, nothing cosigned
        ELSE r
 
+\* which history a replayed signature draws on: "seen" - the donor was offered to the witness before (as an STH of
+\* the addressed log), "xseen" - it was offered as an STH of another log than the one addressed now, "unseen" /
+\* "xunseen" - the witness never met the donor
+ReplayClass(l, c) ==
+  IF ~IsReplay(c) THEN "none"
+  ELSE IF DonorCand(c) \in offered[c.signer]
+         THEN (IF c.signer = l THEN "seen" ELSE "xseen")
+         ELSE (IF c.signer = l THEN "unseen" ELSE "xunseen")
+
 Step(op, l, sp, c, pf, f, reply) ==
-  [op |-> op, log |-> l, sp |-> sp, cand |-> c, pf |-> pf, fault |-> f, reply |-> reply, pre |-> held, post |-> held']
+  [op |-> op, log |-> l, sp |-> sp, cand |-> c, pf |-> pf, fault |-> f, replay |-> ReplayClass(l, c),
+   reply |-> reply, pre |-> held, post |-> held']
+
+\* the history of genuine signatures the witness has met
+IsGenuine(c, l) == c # Garbage /\ c.over = None /\ c.signer = l
+Offer(l, c) == IF l \in Logs /\ IsGenuine(c, l) THEN [offered EXCEPT ![l] = @ \cup {c}] ELSE offered
 
 Update(l, sp, c, pf, f) ==
   LET r == UpdateResult(l, sp, c, pf, f) IN
   /\ held' = IF r.store THEN [held EXCEPT ![l] = c] ELSE held
   /\ cos' = IF r.reply.kind = "cosigned" THEN [cos EXCEPT ![l] = r.reply.sth] ELSE cos
+  /\ offered' = Offer(l, c)
   /\ last' = Step("Update", l, sp, c, pf, f, r.reply)
   /\ hist' = Append(hist, last')
 
@@ -161,14 +219,15 @@ GetSTHReply(l, sp, f) ==
 
 GetSTH(l, sp, f) ==
   LET reply == GetSTHReply(l, sp, f) IN
-  /\ UNCHANGED held
+  /\ UNCHANGED <<held, offered>>
   /\ cos' = IF reply.kind = "cosigned" THEN [cos EXCEPT ![l] = reply.sth] ELSE cos
   /\ last' = [Step("GetSTH", l, sp, None, "none", f, reply) EXCEPT !.post = held]
   /\ hist' = Append(hist, last')
 
 GetLogs(f) ==
-  /\ UNCHANGED <<held, cos>>
+  /\ UNCHANGED <<held, cos, offered>>
   /\ last' = [op |-> "GetLogs", log |-> "none", sp |-> "canon", cand |-> None, pf |-> "none", fault |-> f,
+              replay |-> "none",
               reply |-> IF ReadFails(f)
                         THEN [code |-> "Other", kind |-> "none", sth |-> None, logs |-> {}]
                         ELSE [code |-> "OK", kind |-> "logs", sth |-> None,
@@ -178,22 +237,29 @@ GetLogs(f) ==
 
 Init == /\ held = [l \in Logs |-> None]
         /\ cos = [l \in Logs |-> None]
+        /\ offered = [l \in Logs |-> {}]
         /\ hist = <<>>
         /\ last = None
 
-NextUpdate == \E l \in AllLogs, sp \in Spellings, c \in Cands, pf \in Proofs, f \in Faults : Update(l, sp, c, pf, f)
+NextUpdate == \E l \in AllLogs, sp \in Spellings, c \in PlainCands, pf \in Proofs, f \in Faults : Update(l, sp, c, pf, f)
+\* replayed signatures: sent to the log whose signature it is with every proof x every fault under the configured
+\* spelling; to every log (the other one, an unknown one) and under every spelling with the correct proof on a healthy
+\* database (the signature is judged before the proof and the database are looked at)
+NextReplay == \/ \E l \in Logs, pf \in Proofs, f \in Faults : \E c \in {x \in ReplaySTHs : x.signer = l} : Update(l, "canon", c, pf, f)
+              \/ \E l \in AllLogs, sp \in Spellings, c \in ReplaySTHs : Update(l, sp, c, "correct", "none")
 NextRead == (\E l \in AllLogs, sp \in Spellings, f \in ReadOpFaults : GetSTH(l, sp, f)) \/ \E f \in ReadOpFaults : GetLogs(f)
-Next == NextUpdate \/ NextRead
+Next == NextUpdate \/ NextReplay \/ NextRead
 
 \* the fault-free, configured-spelling fragment (the whole request space of the first version of this spec)
-PlainNext == \/ \E l \in AllLogs, c \in Cands, pf \in Proofs : Update(l, "canon", c, pf, "none")
+PlainNext == \/ \E l \in AllLogs, c \in PlainCands, pf \in Proofs : Update(l, "canon", c, pf, "none")
              \/ \E l \in AllLogs : GetSTH(l, "canon", "none")
              \/ GetLogs("none")
 
 Spec == Init /\ [][Next]_vars
 
 (* ---------- the property (C19) ---------- *)
-TypeOK == \A l \in Logs : held[l] \in Cands \cup {None} /\ cos[l] \in Cands \cup {None}
+TypeOK == \A l \in Logs : /\ held[l] \in Cands \cup {None} /\ cos[l] \in Cands \cup {None}
+                          /\ offered[l] \subseteq Genuine(l)
 
 \* stores (and therefore cosigns) only STHs carrying a valid signature of the configured log
 OnlySigned == \A l \in Logs : held[l] # None => ParsesFor(held[l], l)
@@ -252,6 +318,22 @@ OneHistoryPerLog == [][last'.sp # "canon" =>
                           /\ held' = held /\ cos' = cos
                           /\ last'.reply.kind \notin {"cosigned", "raw"}
                           /\ last'.reply.code \in {"NotFound", "Other"}]_vars
+
+(* ---------- history of signatures ---------- *)
+\* whatever is held was offered (so the stored STH is always a possible donor: class "seen")
+HeldWasOffered == \A l \in Logs : held[l] # None => held[l] \in offered[l]
+
+\* an STH under signature bytes that were made over another content is refused whatever the witness has been
+\* offered, has verified or holds: nothing stored, nothing cosigned, and - when the log is addressed by its
+\* configured name - the plain error that answers any other bad signature (not the held STH)
+ReplayedSigRefused == [][(last'.op = "Update" /\ last'.replay # "none") =>
+                            /\ held' = held /\ cos' = cos /\ offered' = offered
+                            /\ last'.reply.kind \notin {"cosigned", "raw"}
+                            /\ (Configured(last'.log, last'.sp) => last'.reply = Reply("Other", "none", None))]_vars
+
+\* ... exactly like the same content under the signature of a key that is no log's
+ReplayedLikeBadSig == [][(last'.op = "Update" /\ last'.replay # "none") =>
+                            last'.reply = UpdateResult(last'.log, last'.sp, BadTwin(last'.cand), last'.pf, last'.fault).reply]_vars
 
 \* an update of one log never touches another log's row
 Isolated == [][\A l \in Logs : (last'.op # "Update" \/ last'.log # l) => held'[l] = held[l]]_vars
